@@ -238,6 +238,7 @@ Qed.
 Lemma W_step_enter s : W s -> W (fst (lift enter s)).
 Proof.
   intros Ws. pose proof (W_cur s Ws) as Uc. destruct s as [h o others]. unfold lift, enter. cbn [s_heap s_cur s_others] in *.
+  destruct (o_backup o) as [b0|] eqn:Eb0; [exact Ws|].
   destruct (copy_mol true true h o) as [[h1 b]|e] eqn:E; [|exact Ws]. cbn [ok fst].
   destruct (copy_mol_spec _ _ _ _ _ _ (proj1 (proj1 Uc)) E) as [cb [Eb [Wb [X [Fr V]]]]]. subst b. simpo.
   apply (W_enter h o others h1 (mkM (o_atoms o) cb (filter (kept true true) (o_cache o)) (o_changed o) None (o_name o) (o_meta o)) Ws X);
@@ -267,8 +268,10 @@ Proof.
 Qed.
 Lemma In_txn_diffs x o b : In x (txn_diffs o b) -> In x (keys (o_atoms o)).
 Proof.
-  unfold txn_diffs. rewrite in_flat_map. intros [[n a] [H1 H2]]. cbn [fst snd] in H2. destruct (zget (bk_atoms b) n); [|destruct H2].
-  destruct (_ && _); [destruct H2|]. destruct H2 as [<-|[]]. change n with (fst (n, a)). now apply in_map.
+  unfold txn_diffs. rewrite in_flat_map. intros [[n a] [H1 H2]]. cbn [fst snd] in H2.
+  assert (In n (keys (o_atoms o))) as Hn by (change n with (fst (n, a)); now apply in_map).
+  destruct (zget (bk_atoms b) n); [|destruct H2 as [<-|[]]; exact Hn].
+  destruct (_ && _); [destruct H2|]. destruct H2 as [<-|[]]. exact Hn.
 Qed.
 Lemma note_setters_good : good1 note_setters.
 Proof.
@@ -333,7 +336,7 @@ Qed.
 
 Lemma sub_spec ats h o h2 o2 e :
   wf h o -> substructure ats h o = Ok (h2, o2, e) ->
-  exists h1 sub0, hext h h1 /\ inv1 h1 sub0 /\ o_cache sub0 = [] /\ o_backup sub0 = None /\
+  exists h1 sub0, hext h h1 /\ inv1 h1 sub0 /\ o_cache sub0 = [] /\ o_backup sub0 = None /\ o_changed sub0 = None /\
     (forall r, In r (arefs (o_adj sub0)) -> h_next h <= r) /\ (fix_structure ;; fix_stereo) h1 sub0 = (h2, o2, e).
 Proof.
   intros Wf H. unfold substructure in H. destruct ats as [|a0 ats']; [discriminate|].
@@ -353,7 +356,7 @@ Proof.
   split; [split|].
   - unfold wf. cbn [o_atoms o_adj]. eapply (gcopy_wfa (fun m => zmem m sel) fsub h (o_adj o) Wnd Wsym Wlt rows); eauto.
   - intros l Hl. discriminate.
-  - split; [reflexivity|]. split; [reflexivity|]. split; [|inversion H; reflexivity].
+  - split; [reflexivity|]. split; [reflexivity|]. split; [reflexivity|]. split; [|inversion H; reflexivity].
     intros r. cbn [o_adj]. eapply (gcopy_fresh (fun m => zmem m sel) fsub h (o_adj o) Wnd Wsym Wlt rows); eauto.
 Qed.
 
@@ -366,7 +369,7 @@ Lemma W_step_sub ats s : W s ->
 Proof.
   intros Ws. pose proof (W_cur s Ws) as Uc. destruct s as [h o others]. cbn [s_heap s_cur s_others] in *.
   destruct (substructure ats h o) as [[[h2 o2] e]|err] eqn:E; [|exact Ws].
-  destruct (sub_spec _ _ _ _ _ _ (proj1 (proj1 Uc)) E) as [h1 [sub0 [X [I0 [C0 [B0 [Fr R]]]]]]].
+  destruct (sub_spec _ _ _ _ _ _ (proj1 (proj1 Uc)) E) as [h1 [sub0 [X [I0 [C0 [B0 [_ [Fr R]]]]]]]].
   pose proof (fix_both_good h1 sub0 I0) as G. pose proof (kc_fix_both h1 sub0 (K2_nil _ _ C0)) as K. rewrite R in G, K.
   destruct G as [I2 [HL [Un [Rf Bk]]]].
   assert (hext h h2) as X2.
